@@ -1,6 +1,7 @@
 import Driver.Common
 import LinkVerif.Model.Trie
 import LinkVerif.Model.TrieDecode
+import LinkVerif.Model.TrieIter
 import LinkVerif.Go.Keccak
 
 namespace Driver.C10
@@ -10,6 +11,9 @@ open Go.Proto Model.Trie Driver
 structure St where
   node : Option Node := none
   secure : Bool := false
+  base : Option Node := none          -- `snap`: the trie the difference / union iterators compare with
+  cache : List Bytes := []            -- secure trie: keys written since the last commit (secKeyCache)
+  stored : List Bytes := []           -- secure trie: preimages committed to the node database
 
 def H : Bytes → Bytes := Go.Keccak.keccak256L
 
@@ -49,30 +53,89 @@ def step (s : St) (toks : List String) : St × String :=
         match argHex? toks "k", argHex? toks "v" with
         | some k, some v =>
           match update n (keyOf s k) v with
-          | some n' => ({ s with node := some n' }, "ok")
+          | some n' =>
+            -- SecureTrie.TryUpdate records the preimage also when the value is empty (it deletes from the trie only)
+            ({ s with node := some n', cache := if s.secure then k :: s.cache.filter (· != k) else s.cache }, "ok")
           | none => ({ s with node := none }, "panic")
         | _, _ => (s, "bad-op")
       | "del" =>
         match argHex? toks "k" with
         | some k =>
           match delete n (keybytesToHex (keyOf s k)) with
-          | some n' => ({ s with node := some n' }, "ok")
+          | some n' => ({ s with node := some n', cache := s.cache.filter (· != k) }, "ok")
           | none => ({ s with node := none }, "panic")
         | none => (s, "bad-op")
       | "get" =>
         match argHex? toks "k" with
         | some k => (s, s!"v={hexEncode ((lookup n (keyOf s k)).getD [])}")
         | none => (s, "bad-op")
-      | "hash" | "commit" | "reopen" => (s, showRoot n)
+      | "openmissing" => (s, "err-missing-root")
+      | "dbstat" => (s, "integrity=ok")
+      | "hash" => (s, showRoot n)
+      | "commit" | "reopen" =>
+        let s' := { s with stored := s.cache ++ s.stored, cache := [] }
+        if arg? toks "leaf" == some "1" then (s', s!"{showRoot n} leaves={leafStores H n}") else (s', showRoot n)
+      | "lockprobe" => ({ s with stored := s.cache ++ s.stored, cache := [] }, "lock=free commit=err")
+      | "diskfail" =>
+        -- write failures injected into Database.Commit / Cap: nothing is lost, the final state is the committed trie on disk
+        ({ s with stored := s.cache ++ s.stored, cache := [] }, s!"{showRoot n} bad=0")
+      | "snap" => ({ s with base := some n, stored := s.cache ++ s.stored, cache := [] }, showRoot n)
+      | "getkey" =>
+        match argHex? toks "k" with
+        -- an empty preimage reads as "unknown" on both sides (GetKey returns a zero-length slice)
+        | some k => (s, if (s.cache.contains k || s.stored.contains k) && !k.isEmpty then s!"pre={hexEncode k}" else "pre=nil")
+        | none => (s, "bad-op")
+      | "copywrite" =>
+        match argHex? toks "k", argHex? toks "v" with
+        | some k, some v =>
+          match update n (keyOf s k) v with
+          | some c =>
+            let known := (s.cache.contains k || s.stored.contains k) && !k.isEmpty
+            (s, s!"orig={hexEncode ((lookup n (keyOf s k)).getD [])} copy={hexEncode ((lookup c (keyOf s k)).getD [])} " ++
+              s!"rootorig={hexEncode (root H n)} rootcopy={hexEncode (root H c)} origpre={if known then hexEncode k else "nil"}")
+          | none => ({ s with node := none }, "panic")
+        | _, _ => (s, "bad-op")
+      | "iterfrom" =>
+        match argHex? toks "start" with
+        | some st => (s, showKV (iterFrom n st))
+        | none => (s, "bad-op")
+      | "nodeiter" =>
+        let w := nodeWalk H n
+        let leaves := (w.filter (fun x => hasTerm x.1)).length
+        let items := w.map (fun x => hexEncode (x.1.map (fun i => UInt8.ofNat i.val)) ++ ":" ++ hexEncode x.2.1 ++ ":" ++ hexEncode x.2.2)
+        (s, s!"n={w.length} leaves={leaves} proofs={leaves}/{leaves} nodes={",".intercalate items}")
+      | "diff" =>
+        match s.base with
+        | some a => (s, showKV (diffLeaves a n))
+        | none => (s, "bad-op")
+      | "union" =>
+        match s.base with
+        | some a => (s, showKV (unionLeaves a n))
+        | none => (s, "bad-op")
+      | "missing" =>
+        -- every reachable node blob removed from the disk database in turn; `errs` = how many removals make the op fail
+        match argHex? toks "k" with
+        | some k =>
+          let total := (hashedNodes H n).length
+          let onPath := (proofNodes H n (keybytesToHex (keyOf s k))).length
+          let s' := { s with stored := s.cache ++ s.stored, cache := [] }
+          match arg? toks "op" with
+          | some "iter" => (s', s!"nodes={total} errs={total} bad=0")
+          | some "get" | some "put" | some "prove" => (s', s!"nodes={total} errs={if total == 0 then 0 else onPath} bad=0")
+          | _ => (s', s!"nodes={total} bad=0")      -- del / seek / wrappers: which removals matter is not modelled
+        | none => (s, "bad-op")
       | "cachelimit" | "cap" | "gc" => (s, "ok")
       | "iter" => (s, showKV (toMap n))
       | "prove" =>
         match argHex? toks "k" with
         | some k =>
           let key := keyOf s k
-          let nodes := proofNodes H n (keybytesToHex key)
-          -- an honest proof verifies to the content; the empty trie has no proof nodes and nothing verifies
-          let res := if nodes.isEmpty then "res=err v=-" else
+          let from_ := (argNat? toks "from").getD 0
+          let full := proofNodes H n (keybytesToHex key)
+          let nodes := full.drop from_
+          -- an honest proof verifies to the content; the empty trie has no proof nodes and nothing verifies;
+          -- Prove(fromLevel > 0) leaves out the first proof elements, so the root node is missing
+          let res := if full.isEmpty || from_ > 0 then "res=err v=-" else
             match lookup n key with
             | some v => s!"res=ok v={hexEncode v}"
             | none => "res=absent v=-"
